@@ -18,9 +18,9 @@ LEVEL = "exploration"
 RULE = (
     "one case per (history, prefix, probe): histories of 1-12 assemblies in one process (valid programs, programs failing in the scanner, "
     "parser, expansion, label pass and emission, .map programs, other ROM types, programs re-using the probes' macro/symbol/label/table/"
-    "file names with other contents, file-API and in-process CLI runs) followed after every prefix by 22 probes (LoROM, HiROM, low2, .map, "
+    "file names with other contents, file-API and in-process CLI runs) followed after every prefix by 24 probes (LoROM, HiROM, low2, .map, "
     "macros, tables, .incbin, -D, failing probes); each probe result (blocks, labels, root symbols, error kind and text with object "
-    "addresses normalised) is compared with the same probe assembled alone in a fresh interpreter, and probes are repeated; distinct by "
+    "addresses normalised) is compared with the same probe assembled alone in a fresh interpreter, and probes are repeated; batches of probes are also assembled on Program objects that were all constructed before the first of them ran; distinct by "
     "hash of (history prefix, probe); non-trivial = every comparison against a fresh-process baseline"
 )
 ASSUMPTIONS = [
@@ -57,6 +57,10 @@ def fixed_probes() -> list[dict]:
         {"name": "incbin_other_content", "src": "*=0x02FFF0\n.incbin 'blob.bin'\nafter_blob:\n.dl after_blob, blob_bin, blob_bin__size\n", "rom": None, "files": {"blob.bin": bytes(range(200, 193, -1))}},
         {"name": "table_other_content", "src": "*=0x018000\n.table 'shared.tbl'\n.text 'ABC CAB'\nafter_text:\n.dl after_text\n", "rom": None, "files": {"shared.tbl": TABLE_B}},
         {"name": "include", "src": "*=0x008000\n.db 1\n.include 'shared_inc.s'\n.db 2\n", "rom": None, "files": {"shared_inc.s": "inc_l:\nlda.w #0x1234\n.dl inc_l\n"}},
+        {"name": "include_nested", "src": "*=0x008000\n.db 1\n.include 'outer_inc.s'\n.db 2\n", "rom": None,
+         "files": {"outer_inc.s": "out_l:\n.include 'cfg/inner_inc.s'\n.dw region_k, out_l\n", "cfg/inner_inc.s": "region_k := 0x11\nlda.w #0xBEEF\n"}},
+        {"name": "include_nested_other_inner", "src": "*=0x008000\n.db 1\n.include 'outer_inc.s'\n.db 2\n", "rom": None,
+         "files": {"outer_inc.s": "out_l:\n.include 'cfg/inner_inc.s'\n.dw region_k, out_l\n", "cfg/inner_inc.s": "region_k := 0x22\nldx.w #0x0042\nrts\n"}},
         {"name": "include_ips", "src": "*=0x008000\n.db 1\n.include_ips 'shared.ips', 0x200\n.db 2\n", "rom": None, "files": {"shared.ips": IPS_SHARED}},
         {"name": "include_ips_twice", "src": "*=0x008000\n.include_ips 'shared.ips', 0x1000\n.include_ips 'shared.ips', 0 - 0x200\n.db 3\n", "rom": None, "files": {"shared.ips": IPS_SHARED}},
         {"name": "reloc", "src": "*=0x008000\n@=0x7e0000\nram_code:\nlda.l ram_code\n*=0x018000\n.dl ram_code\n", "rom": None},
@@ -104,7 +108,10 @@ def run_action(a: dict):
 
 
 def signature(a: dict) -> dict:
-    r = run_action(a)
+    return sig_of(run_action(a))
+
+
+def sig_of(r) -> dict:
     return {
         "ok": r.ok,
         "err_kind": r.err_kind,
@@ -265,10 +272,41 @@ def _run_history(res: Res, rng: random.Random, hist: list, done: list, probes: l
                 if again != sig:
                     res.violate("not-repeatable", f"probe {pr['name']} gives different results when repeated", {"history": [enc(a) for a in done], "probe": enc(pr), "baseline": base[i]})
                     break
+            if len(done) == len(hist) or rng.random() < 0.25:
+                _constructed_early(res, rng, done, probes, base)
             d = state_digest()
             if d != digest0:
                 res.count("state_digest_changed(diagnostic)")
                 digest0 = d
+
+
+def _constructed_early(res: Res, rng: random.Random, done: list, probes: list, base: dict) -> None:
+    """A build script may create all its Program objects first and assemble afterwards: the result of each assembly still
+    depends on its own source, files and options only."""
+    from vf.harness import new_program, run_program
+
+    order = [i for i in base if probes[i].get("via", "mem") == "mem"]
+    rng.shuffle(order)
+    order = order[:rng.randint(2, 6)]
+    if rng.random() < 0.6:
+        # two probes that name the same file with different contents
+        a, b = rng.choice([("incbin", "incbin_other_content"), ("table", "table_other_content"), ("include_nested", "include_nested_other_inner")])
+        pair = [i for i in base if probes[i]["name"] in (a, b)]
+        order = [i for i in order if i not in pair] + pair
+    progs = {i: new_program(probes[i].get("rom"), probes[i].get("defines")) for i in order}
+    rng.shuffle(order)
+    for i in order:
+        pr = probes[i]
+        _write_project_files(pr.get("files"))
+        sig = sig_of(run_program(progs[i], pr["src"]))
+        res.case(("early", [a["src"] for a in done], tuple(probes[j]["name"] for j in order), pr["name"]), True)
+        res.count("assemblies_on_programs_constructed_early")
+        if sig != base[i]:
+            diff = next(k for k in sig if sig[k] != base[i][k])
+            res.violate("history-changes-result", f"probe {pr['name']} assembled on a Program constructed before other assemblies ran ({[probes[j]['name'] for j in order]}): {diff} = "
+                        f"{str(sig[diff])[:160]} but alone in a fresh process {str(base[i][diff])[:160]}",
+                        {"history": [enc(a) for a in done], "probe": enc(pr), "baseline": base[i], "early": [enc(probes[j]) for j in order]})
+            break
 
 
 def replay(w: dict) -> Res:
@@ -284,7 +322,20 @@ def replay(w: dict) -> Res:
                     run_action(dec(a))
                 except BaseException:  # noqa: BLE001
                     pass
-            sig = signature(pr)
+            if w.get("early"):
+                from vf.harness import new_program, run_program
+
+                early = [dec(e) for e in w["early"]]
+                progs = [new_program(e.get("rom"), e.get("defines")) for e in early]
+                sig = None
+                for e, prog in zip(early, progs):
+                    _write_project_files(e.get("files"))
+                    got = sig_of(run_program(prog, e["src"]))
+                    if e["name"] == pr["name"] and e["src"] == pr["src"] and enc(e)["files"] == enc(pr)["files"]:
+                        sig = got
+                        break
+            else:
+                sig = signature(pr)
         finally:
             _project_dir["on"] = False
     res.case(pr["src"], True)
